@@ -13,7 +13,7 @@
 From Coq Require Import List NArith Permutation Lia ZifyN ZifyNat ZifyBool.
 From GoPdf.Base Require Import Bytes.
 From GoPdf.C13 Require Import CMapRanges CMapRangesProofs1 CMapRangesProofs2 CMapRangesProofs3 CMapRangesProofs4.
-From GoPdf.C13 Require Import CMapText CMapTextProofs1 CMapTextProofs2 CMapTextProofs3 CMapTextProofs4.
+From GoPdf.C13 Require Import CMapText CMapTextProofs1 CMapTextProofs2 CMapTextProofs3 CMapTextProofs4 CMapTextProofs5.
 From Coq Require Import ZArith.
 Import ListNotations.
 Open Scope N_scope.
@@ -484,4 +484,81 @@ Example ex_nd_sorted : nd_sorted_wf (CFile [] [] [] [([32], 1)] [([0], [31], 2);
 Proof.
   unfold nd_sorted_wf, single_wf, crange_full_wf, two32; cbn.
   repeat split; repeat constructor; cbn; try discriminate; try lia.
+Qed.
+
+(* ======================================================================== *)
+(* arbitrary parents of SetMapping                                              *)
+(* setmapping_lookup, setmapping_lookup_mapped(_full), setmapping_lookup_bytes, setmapping_lookup_chain and
+   all_lookup_agree quantify over EVERY file f: its parent chain is an arbitrary cfile - hand-made, with
+   overlapping singles and ranges, with ranges of more than MaxCMapMappings codes, of any depth.  Redundancy
+   is decided by parent_maps, i.e. by lookup (lookup_cid_opt: child first, singles before ranges, first
+   match), never by the enumeration. *)
+
+(* the grandparent has overlapping ranges (<20>-<ff> -> 32.. and <40>-<4f> -> 100..: lookup of <41> gives 65,
+   the enumeration ends with 101) and a range of 17*65536 three-byte codes; the parent redirects <41> to 7;
+   the map sends <41> back to 65, <42> to 102 (the value of the second, shadowed range) and <43> to 67
+   (redundant: omitted) *)
+Example ex_overlapping_ancestor :
+  let csr := [([32], [255]); ([1; 0; 0], [17; 255; 255])] in
+  let grand := CFile csr [] [([32], [255], 32); ([64], [79], 100); ([1; 0; 0], [17; 255; 255], 1000)] [] [] None in
+  let parent := CFile csr [([65], 7)] [] [] [] (Some grand) in
+  let f := set_mapping csr (CFile [] [] [] [] [] (Some parent)) [(65, 65); (66, 102); (67, 67); (65537, 5)] in
+  c_singles f = [([65], 65); ([66], 102); ([1; 0; 1], 5)] /\ c_ranges f = [] /\
+  map (lookup_cid f) [[65]; [66]; [67]; [68]; [1; 0; 1]; [1; 0; 2]; [17; 255; 255]] = [65; 102; 67; 68; 5; 1002; 1115111].
+Proof. vm_compute. repeat split; reflexivity. Qed.
+
+(* ======================================================================== *)
+(* Embed / Extract of parent chains: who is the parent                          *)
+(* Vocabulary: pobj (a CMap object in the PDF: a name, or a stream with its /UseCMap entry), efile (a File
+   before embedding: the predefined object itself, or a custom file with ANY name and its parent),
+   embed_cid, extract_cid predefined (the resolver: the /UseCMap stream decides; the usecmap name is looked
+   up among the predefined CMaps only when there is no /UseCMap), efile_meaning, chain_ok (custom files
+   well-formed and stable, predefined files exist), stable (sorting the lists does not change what the file
+   answers), same_lookups. *)
+
+(* for EVERY table of predefined CMaps and every chain: extraction of the embedded chain succeeds and
+   LookupCID / LookupNotdefCID are those of the original chain - also when custom files carry predefined
+   names *)
+Theorem extract_embed_chain :
+  forall (predefined : bytes -> option cfile) (e : efile),
+    chain_ok predefined e ->
+    exists f' m, extract_cid predefined (embed_cid e) = Some f' /\ efile_meaning predefined e = Some m /\
+      (forall c, lookup_cid f' c = lookup_cid m c) /\ (forall c, lookup_notdef f' c = lookup_notdef m c).
+Proof.
+  intros predefined e H. destruct (extract_embed_lemma predefined e H) as (f' & m & H1 & H2 & H3).
+  exists f', m. repeat split; auto.
+  - apply same_lookups_cid. exact H3.
+  - intros c. apply (H3 c).
+Qed.
+Print Assumptions extract_embed_chain.
+
+(* files with sorted lists and files built by SetMapping are stable *)
+Theorem stable_when_sorted :
+  forall t,
+    sort_by single_leb (ct_singles t) = ct_singles t -> sort_by range_leb (ct_ranges t) = ct_ranges t ->
+    sort_by single_leb (ct_nd_singles t) = ct_nd_singles t -> sort_by range_leb (ct_nd_ranges t) = ct_nd_ranges t ->
+    stable t.
+Proof. exact stable_sorted. Qed.
+Print Assumptions stable_when_sorted.
+
+Theorem stable_after_setmapping :
+  forall name wmode ros pn csr f es,
+    NoDup (map fst es) -> wf_entries N es -> cid_ok es -> nd_sorted_wf f ->
+    stable (ctext_of name wmode ros pn (set_mapping_bytes csr f es)).
+Proof. exact stable_set_mapping. Qed.
+Print Assumptions stable_after_setmapping.
+
+(* the other resolution order (the usecmap NAME first, seeded change C13-8) replaces a custom parent that
+   carries a predefined name by the predefined CMap *)
+Example name_first_resolution_differs :
+  option_map (fun f => lookup_cid f [65]) (extract_cid pd (embed_cid collide)) = Some 7 /\
+  option_map (fun f => lookup_cid f [65]) (efile_meaning pd collide) = Some 7 /\
+  option_map (fun f => lookup_cid f [65]) (extract_cid_name_first pd (embed_cid collide)) = Some 1.
+Proof. exact name_first_differs. Qed.
+
+Example ex_chain_ok : chain_ok pd collide.
+Proof.
+  unfold collide, collide_child, collide_parent. cbn [chain_ok]. repeat split;
+    try (unfold wf_ctext, csr_wf, single_wf, two32; cbn; repeat split; repeat constructor; cbn; try discriminate; lia);
+    try (apply stable_sorted; reflexivity).
 Qed.
